@@ -69,6 +69,7 @@ type HarnessResult struct {
 	Discharged  int
 	Violations  map[string]*Violation
 	Covers      map[string]int
+	Skipped     string // set by VSkip: the harness's lemma does not apply to this tree
 	CoverWit    map[string]*Violation
 	Aborts      map[string]int
 	Unknowns    map[string]int
